@@ -10,6 +10,8 @@ CONSTANTS
   ReverseViewCached = FALSE
   AliasBoundToFirstObject = FALSE
   ShallowCopy = TRUE
+  ViewReplacesEmptyIndex = FALSE
+  WatchParts = FALSE
   SrcSteps = 2
   Emit = FALSE
 SPECIFICATION Spec
